@@ -364,11 +364,11 @@ theorem mirror_dateLit (l : DateV) : mir isD (dateLit l) = some (dateTree l) := 
 
 theorem mirror_cmp (k : CmpK) (c : Str) (l : DateV) :
     mir isD (DateF.cmp k c l).toExpr = some (.bin (cmpName k.toOp) (.col none c) (dateTree l)) := by
-  rw [DateF.toExpr, cmpOpOf_eq, mirror_compare isD _ _ _ (toOp_ne_in k) rfl]; rfl
+  rw [DateF.toExpr, cmpOpOf_eq, mirror_compare isD _ _ _ (toOp_ne_in k) rfl rfl]; rfl
 
 theorem mirror_cmpR (k : CmpK) (l : DateV) (c : Str) :
     mir isD (DateF.cmpR k l c).toExpr = some (.bin (cmpName k.toOp) (dateTree l) (.col none c)) := by
-  rw [DateF.toExpr, cmpOpOf_eq, mirror_compare isD _ _ _ (toOp_ne_in k) rfl]; rfl
+  rw [DateF.toExpr, cmpOpOf_eq, mirror_compare isD _ _ _ (toOp_ne_in k) rfl rfl]; rfl
 
 theorem mirrorList_dates (ls : List DateV) :
     mirrorList isD .sqlite none (Exprs.ofList (ls.map dateLit)) = some (dateTrees ls) := by
@@ -387,7 +387,7 @@ theorem mirror_partCall (p : DatePart) (c : Str) :
 
 theorem mirror_part (p : DatePart) (k : CmpK) (c : Str) (n : Nat) :
     mir isD (DateF.part p k c n).toExpr = some (.bin (cmpName k.toOp) (partTree p c) (.num (Nat.toDigits 10 n))) := by
-  rw [DateF.toExpr, cmpOpOf_eq, mirror_compare isD _ _ _ (toOp_ne_in k) rfl, mirror_partCall, mirror_lit]
+  rw [DateF.toExpr, cmpOpOf_eq, mirror_compare isD _ _ _ (toOp_ne_in k) rfl rfl, mirror_partCall, mirror_lit]
   show Option.bind (some _) (fun l' => Option.bind (some (numOf (Nat.toDigits 10 n))) _) = _
   rw [numOf_digits _ (toDigits_ascii n)]; rfl
 
